@@ -61,7 +61,9 @@ template <int S> struct Runner {
     { if (reused.isInitialized()) (void)reused.getEnergy();
       // every third problem the long-lived object first holds the SAME segment count, start and end time with the durations in reversed order
       // (other inner knots): the trajectory it publishes afterwards must carry the new knots (seeded change C04-m8)
-      if (p.N >= 2 && (++nth % 3) == 0) { Prob r = p; r.T.assign(p.T.rbegin(), p.T.rend()); reused.update(r.T, r.P, r.t0, r.bc); (void)reused.getEnergy(); (void)reused.getTrajectory().evaluate(r.t0, 1); }
+      if (p.N >= 2 && (++nth % 3) == 0) { Prob r = p; r.T.assign(p.T.rbegin(), p.T.rend()); reused.update(r.T, r.P, r.t0, r.bc); (void)reused.getEnergy(); (void)reused.getTrajectory().evaluate(r.t0, 1);
+        // the intermediate state is checked too: the previous problem of the unit had p's knots, so a stale grid would be right again by luck afterwards
+        Sp fr = build<S, D>(r); ++c.st.comparisons; if (reused.getTrajectory().getBreakpoints() != fr.getTrajectory().getBreakpoints() || !mat_bits_equal(reused.getTrajectory().getCoefficients(), fr.getTrajectory().getCoefficients()) || !bits_equal(reused.getEnergy(), fr.getEnergy())) fail("energy-reused-object", fmt("after a re-fit that keeps N, start and end time but moves the inner knots, the published trajectory (knots / polynomials) or the energy is not that of a fresh fit | %s", describe(r).c_str())); }
       if (toggle) reused.update(p.T, p.P, p.t0, p.bc); else { std::vector<double> tp = p.timepoints(); bool exact = true; for (int i = 0; i < p.N; ++i) exact = exact && (tp[i + 1] - tp[i] == p.T[i]); if (exact) reused.update(tp, p.P, p.bc); else reused.update(p.T, p.P, p.t0, p.bc); }
       toggle = !toggle; double e1 = reused.getEnergy(), e2 = reused.getEnergy(); ++c.st.comparisons;
       if (reused.getTrajectory().getBreakpoints() != sp.getTrajectory().getBreakpoints() || !mat_bits_equal(reused.getTrajectory().getCoefficients(), C)) fail("energy-reused-object", fmt("the trajectory a re-fitted object publishes (knots / polynomials) is not the one its energy refers to | %s", describe(p).c_str()));
